@@ -514,6 +514,14 @@ pub fn radius(f: Func, x0: f64) -> Option<f64> {
         Func::Acosh => Some(x0 - 1.0),
         Func::Atan | Func::Asinh => Some((1.0 + x0 * x0).sqrt()),
         Func::Tanh => Some((x0 * x0 + PI * PI / 4.0).sqrt()),
+        // closed forms divide by powers of x
+        Func::SphJ0 | Func::SphJ1 | Func::SphJ2 => {
+            if x0.abs() >= 1.0 {
+                Some(x0.abs())
+            } else {
+                None
+            }
+        }
         _ => None,
     }
 }
@@ -521,6 +529,13 @@ pub fn radius(f: Func, x0: f64) -> Option<f64> {
 /// majorant coefficients: hat g_k = max_{j<=k} |g_j| / rho^(k-j)
 pub fn majorant(f: Func, x0: f64, g: &Ser) -> Ser {
     let mut m: Ser = g.iter().map(|v| v.abs()).collect();
+    if matches!(f, Func::SphJ0 | Func::SphJ1 | Func::SphJ2) {
+        // closed forms combine sin/cos terms of size 1/|x|: accuracy is absolute at that level
+        let lvl = 1.0 / x0.abs().max(1.0);
+        for v in m.iter_mut() {
+            *v = v.max(lvl);
+        }
+    }
     if let Some(rho) = radius(f, x0) {
         for k in 1..m.len() {
             m[k] = m[k].max(m[k - 1] / rho);
